@@ -10,6 +10,36 @@ CHECKS = {
         note="Trusted: Coq kernel + VM; hand-written Gallina mirror of aggregators.rs (tied by correspondence runs, not verified); values as unbounded Z (sum overflow outside the statement); f64 arithmetic exact on the inputs used; Iterator::size_hint contract.",
         technique="Coq proof over executable model + model/impl correspondence (ds_driver)",
         ref="5/C17"),
+    "C01": dict(
+        text="Theorem (Coq, every interpretation of the expression symbols, every program without aggregates, every plan accepted by the validator, every finite input, every run-time join-order oracle, unbounded sizes / iterations): the rows after run() are the least model of the rules over the input (contain the input in place, closed under every rule, contained in every closed superset), appended rows are new and duplicate free. The model executes the plan that the REAL macro computed (dumped on every run through the verif_hooks front-end driver and checked by the proved-sound Gallina validator), so the theorem is re-checked against what the front end says now; code generation from the plan is a hand-written executable model tied to the compiled program by running both (and the specification oracle, proved to compute the least model) on generated programs x inputs.",
+        note="Trusted: Coq kernel + VM; FRONT hook printer and gen/dl.py translation of the dump into the Coq plan; the hand-written model of the generated code (Engine/Eval.v) is tied by correspondence runs, not verified; rustc; hashbrown/std collections; termination is a hypothesis (fuel) discharged by the runs; values are small i32 (no overflow).",
+        technique="Coq proof (semi-naive invariant + evaluator/specification equivalence) over the dumped plan validated in Gallina + model/impl/spec correspondence (FRONT + PROG)",
+        ref="5/C01"),
+    "C04": dict(
+        text="Theorem (Coq): for every plan accepted by the validator, every duplicate-free input and every interpretation whose aggregators are permutation invariant (proved for the shipped ones), the rows after run() are the stratified model: strata respect the dependencies (aggregated / negated relations are complete before use), each stratum is the least set closed under its rules that extends the lower strata and leaves the aggregated relations fixed; an aggregate ranges over the distinct matching tuples, each once, and the rule continues once per returned value. The first formulation (unconstrained least model) is refuted in Coq with a computed witness. Tie: stratified programs with count/sum/min/max/negation at several levels through FRONT+PROG vs model vs stratified oracle.",
+        note="Trusted: as C01; aggregator semantics as modelled in Agg/AggModel.v (C17); inputs are sets (duplicate input rows are outside the statement); python Tarjan stratification for the oracle is re-checked inside Coq (Strat.stratified).",
+        technique="Coq proof (stratified semi-naive invariant with multiplicity-one indices) + correspondence (FRONT + PROG)",
+        ref="5/C04"),
+    "C05": dict(
+        text="Theorems (Coq, serial engine): input rows are an unmodified prefix of the result; appended rows are pairwise distinct and absent from the input (any program, aggregates included); with a duplicate-free input the rows are duplicate free. Tie: programs x inputs (incl. caller-supplied duplicates) through the real macro; rows observed in Vec order. Parallel half: proved at the index level in C19 (one insert_if_not_present winner per key for every interleaving) and exercised by C02's tie; lattice keys: C03.",
+        note="Trusted: as C01. PARTIAL: the parallel and lattice halves of the statement are not theorems about the engine model here.",
+        technique="Coq proof (corollary of the engine invariants) + correspondence on row order / multiplicity",
+        ref="5/C05"),
+    "C06": dict(
+        text="Theorems (Coq): the least model depends only on the SET of rules and the SET of input facts; two validator-accepted plans for two permutations of the rules run on two permutations of the input with any join-order oracles compute the same relations. Tie: every base program with 3-5 variants (permuted rules / declarations / heads / inputs, swapped independent body clauses, alpha-renamed variables and relations, constants mapped injectively to large i64 and to Strings) through the real macro and rustc; all must equal the base program's least model mapped through the renaming.",
+        note="Trusted: as C01 plus the variant generator. PARTIAL: head-clause / independent-body-item permutation, alpha renaming and injective constant renaming are exercised by the tie but are not yet theorems.",
+        technique="Coq proof (corollaries of the engine theorem) + metamorphic correspondence through the real macro",
+        ref="5/C06"),
+    "C13": dict(
+        text="Theorems (Coq, programs without aggregation): a second run() on an unmodified program value leaves the rows unchanged (even their order); after pushing further facts into any relation, run() yields the relations of a fresh run on the union of all inputs; a run depends only on the rows (indices left by earlier runs are irrelevant). Tie: histories run;run / run;push;run;push;run / run(empty);push;run;run on positive and stratified programs, every snapshot compared with model and specification.",
+        note="Trusted: as C01; Engine/Rerun.v models the program value between runs. PARTIAL: idempotence with aggregation / lattices is exercised by the tie, not yet a theorem. The defect that made aggregates double on a second run was repaired (fix commit 949309d).",
+        technique="Coq proof (least-model idempotence / monotonicity over the engine theorem) + history correspondence",
+        ref="5/C13"),
+    "C19": dict(
+        text="Theorems (Coq, every iteration-order oracle, every shard placement, every interleaving of atomic steps): each index type of the model refines the abstract multimap / set — insert, insert_if_not_present (true iff absent), lookup (exact values with multiplicity), iteration (each entry once), move_index_contents whichever side is larger, merge (total'=total+delta, delta'=new, new'=empty), freeze/unfreeze identity, combined view = sum; concurrent inserts all retained, exactly one insert_if_not_present winner per racing key; whole-history theorems for RelIndexType1 and the CRelIndex stratum protocol; CRelNoIndex merge under the explicit equal-shard-count precondition, conservation otherwise, the equation refuted for unequal counts (reproduced on the real code; C20's subject). Tie: implementation vs model vs independent python oracle on exhaustive-small + random histories, races under rayon pools 1/2/3/8 and std threads.",
+        note="Trusted: Coq kernel + VM; hand-written Gallina mirror of the index sources (tied, not verified); DashMap shard locks / RwLock / hashbrown / std collections atomic and as documented; real schedules are sampled, not enumerated; CRelIndex::len_estimate only tied.",
+        technique="Coq refinement proof over executable model (order/hash oracles and interleavings universally quantified) + model/impl/oracle correspondence (ds_index)",
+        ref="5/C19"),
 }
 
 NOT_YET = {}
@@ -37,13 +67,16 @@ def main():
                    baseline_off_cmd="cd /repo && cargo test --workspace --no-fail-fast --offline",
                    source_commits=HOOK_COMMITS, add_only=True),
         engines=[dict(name="coq", path="coq/", serves_properties=sorted(CHECKS), kind_free_text="Coq 8.16.1 development: executable Gallina models + theorems; property files coq/Props/Cxx.v"),
-                 dict(name="ds_driver", path="harness/ds_driver", serves_properties=[i for i in sorted(CHECKS) if i in ("C16", "C17", "C18", "C19", "C10", "C11", "C12", "C20")], kind_free_text="Rust driver running case tables / operation histories against the real data structures of /repo")],
+                 dict(name="ds_driver", path="harness/ds_driver", serves_properties=[i for i in sorted(CHECKS) if i in ("C17",)], kind_free_text="Rust driver running case tables against the real aggregators of /repo"),
+                 dict(name="ds_index / ds_lat / ds_uf", path="harness/", serves_properties=[i for i in sorted(CHECKS) if i in ("C16", "C18", "C19")], kind_free_text="Rust drivers running operation histories against the real index types, lattices and union-find structures"),
+                 dict(name="FRONT", path="/repo/ascent_macro/src/verif_hook.rs", serves_properties=[i for i in sorted(CHECKS) if i in ("C01", "C04", "C05", "C06", "C13")], kind_free_text="in-process front-end driver (cargo feature verif_hooks): runs the real ascent_impl passes on program texts and dumps the MIR plan"),
+                 dict(name="PROG", path="gen/prog.py", serves_properties=[i for i in sorted(CHECKS) if i in ("C01", "C04", "C05", "C06", "C13")], kind_free_text="generated crates of ascent programs compiled by rustc against /repo and run on embedded inputs / histories")],
         checks=checks, not_applicable=na,
         notes="Every check = (1) rebuild + audit of the Coq property file (Print Assumptions, forbidden vernacular, obligations==discharged) and (2) correspondence of the executable model with the implementation rebuilt from /repo's working tree. See DESIGN.md.")
     open(os.path.join(VERIF, "MANIFEST.json"), "w").write(json.dumps(man, indent=1) + "\n")
 
 
-HOOK_COMMITS = []
+HOOK_COMMITS = ["33cd3e7"]
 
 if __name__ == "__main__":
     main()
